@@ -530,6 +530,59 @@ package ledger
 //@   ensures result == nil
 
 
+// ---- the account controller's ledger (same region discipline: C06) ----------------------------------
+//@ func (l ILedger_acctLedger) Get(key)
+//@   requires !cons_ok                                                                     [C06]
+//@   modifies allmaps(memItems.gotItems), itemkey, itemenc
+//@   allocates Account, uint256.Int
+//@   ensures items_same() && ((result1 == nil) <==> (result0 != nil))
+//@   ensures result1 == nil ==> wf_acct(result0) && itemkey[result0] == key
+//@   ensures result1 == nil ==> result0 == acctobj(l, key, 0)
+
+//@ func (l IFinalityLedger_acctLedger) GetFinality(key)
+//@   requires cons_ok                                                                     [C06]
+//@   modifies allmaps(memItems.gotItems), itemkey, itemenc
+//@   allocates Account, uint256.Int
+//@   ensures items_same() && ((result1 == nil) <==> (result0 != nil))
+//@   ensures result1 == nil ==> wf_acct(result0) && itemkey[result0] == key
+//@   ensures result1 == nil ==> result0 == acctobj(l, key, 1)
+
+//@ func (l ILedger_acctLedger) Set(item)
+//@   requires !cons_ok                                                                     [C06]
+//@   requires item != nil
+//@   modifies allmaps(memItems.gotItems)
+//@   ensures result == nil
+
+//@ func (l IFinalityLedger_acctLedger) SetFinality(item)
+//@   requires cons_ok                                                                     [C06]
+//@   requires item != nil
+//@   modifies allmaps(memItems.gotItems)
+//@   ensures result == nil
+
+//@ func (l ILedger_acctLedger) Del(key)
+//@   requires !cons_ok                                                                     [C06]
+//@   modifies allmaps(memItems.gotItems), memItems.removedKeys, allelems(memItems.removedKeys), itemkey, itemenc
+//@   allocates Account, uint256.Int
+//@   ensures items_same() && ((result1 == nil) <==> (result0 != nil))
+
+//@ func (l IFinalityLedger_acctLedger) DelFinality(key)
+//@   requires cons_ok                                                                     [C06]
+//@   modifies allmaps(memItems.gotItems), memItems.removedKeys, allelems(memItems.removedKeys), itemkey, itemenc
+//@   allocates Account, uint256.Int
+//@   ensures items_same() && ((result1 == nil) <==> (result0 != nil))
+
+//@ func (l ILedger_acctLedger) CancelSet(key)
+//@   requires !cons_ok                                                                     [C06]
+//@   modifies allmaps(memItems.gotItems)
+//@   ensures result == nil
+
+//@ func (l IFinalityLedger_acctLedger) CancelSetFinality(key)
+//@   requires cons_ok                                                                     [C06]
+//@   modifies allmaps(memItems.gotItems)
+//@   ensures result == nil
+
+
+
 // ---- the governance controller's proposal ledger (same region discipline) --------------------------
 //@ func (l ILedger_proposalLedger) Get(key)
 //@   requires !cons_ok                                                                     [C06]
@@ -605,3 +658,15 @@ package ledger
 //@   allocates Delegatee, Stake, BlockMarker, uint256.Int
 //@   ensures items_same() && ((result1 == nil) <==> (result0 != nil))
 //@   ensures result1 == nil ==> wf_delg(result0) && pw_ok(result0) && stakes_ok(result0) && itemkey[result0] == key && result0 == delgof(l, key, 2)
+
+// ---- historical views opened by queries (C19, C06): opening and reading a view writes nothing but ghost
+// bookkeeping and fresh objects; the callback of an iteration may write its captured variables only
+//@ func (l IFinalityLedger) ImmutableLedgerAt(h, cacheSize)
+//@   modifies itemkey, itemenc, immuheight
+//@   allocates SimpleLedger, memItems
+//@   ensures result1 == nil ==> result0 != nil && fresh(result0) && immuheight[result0] == h                  [C19]
+//@   ensures forall x :: x != result0 ==> immuheight[x] == old(immuheight[x])
+
+//@ func (l ILedger) IterateReadAllItems(cb)
+//@   modifies everything
+//@   preserves allmaps(memItems.gotItems), allmaps(memItems.updatedItems), memItems.*, allelems(memItems.removedKeys), FinalityLedger.*, SimpleLedger.*, MemLedger.*, StakeCtrler.*, GovCtrler.*, AcctCtrler.*, GovParams.*, cons_ok, deadobj, immuheight
